@@ -54,6 +54,10 @@ const REQ_BUFS: &[&[u8]] = &[
     // ends inside the target; and a message with the same method length and a shorter target
     b"GET /a-long-target-without-end",
     b"PUT /x HTTP/1.1\r\nReferer: http://x/yyy\r\n\r\n",
+    // every error kind has to occur in a history: NewLine from a lone CR among the leading empty
+    // lines and from a lone CR where the head must end
+    b"\r\n\rGET /n HTTP/1.1\r\n\r\n",
+    b"GET /o HTTP/1.1\r\nA: 1\r\n\rX",
 ];
 
 const RESP_BUFS: &[&[u8]] = &[
@@ -80,6 +84,9 @@ const RESP_BUFS: &[&[u8]] = &[
     b"HTTP/1.1200 OK\r\nH1: v1\r\n\r\n",
     b"HTTP/1.1 200OK\r\n\r\n",
     b"HTTP/1.0 200 OK\nH1: v1\n\n",
+    // NewLine: a lone CR among the leading empty lines / where the head must end
+    b"\rHTTP/1.1 200 OK\r\n\r\n",
+    b"HTTP/1.1 200 OK\r\nA: 1\r\n\rX",
 ];
 
 /// header blocks for parse_headers re-using one array
@@ -97,6 +104,7 @@ const HDR_BUFS: &[&[u8]] = &[
     b"A: 1\r\nB: 2\r\nC: \x01\r\n\r\n",
     b"A:\r\nB: \t \r\n\r\n",
     b"A: 1\r\n there\r\n\r\n",
+    b"A: 1\r\n\rX",
 ];
 
 fn lenient() -> ParserConfig {
@@ -330,7 +338,19 @@ fn entry_disagreement(m: &Reuse, s: &HState) -> Option<(Op, Op, String, String)>
     // current `headers` slice, the uninit ones on the array passed to them (m.cap slots) — after a
     // Complete call has shrunk the slice the two capacities differ and the calls are not comparable
     if s.snap.hlen != m.cap {
-        return None;
+        // ... unless the slice is short for another reason than a Complete: what C17 lets the
+        // history leave behind is the whole array, shrunk by Complete calls only. If that is the
+        // whole array, the caller still has "capacity m.cap" and the entry points must agree.
+        let (res, _, _) = replay(m.kind, m.cap, m.cap, &s.ops);
+        let mut expected = m.cap;
+        for r in res.iter() {
+            if let Res::Complete { headers, .. } = r {
+                expected = headers.len();
+            }
+        }
+        if expected != m.cap {
+            return None;
+        }
     }
     for b in 0..nbuf as u8 {
         for (ea, eb) in [(0u8, 2u8), (1, 3)] {
